@@ -215,6 +215,9 @@ func C03(ctx *core.Ctx) {
 		}
 	}
 
+	ctx.Rule("C03.R10", "goroutines started in a loop capture per-iteration variables only (each accepted connection / message is served by its own goroutine with its own value)", 1)
+	c03LoopCapture(ctx, r, "C03.R10")
+
 	// ---- R9 -------------------------------------------------------------------------------
 	if ih := r.Pkg.Type("InvocationHandler"); ih == nil {
 		ctx.Unresolved("C03.R9", "InvocationHandler", "type not found")
